@@ -322,7 +322,25 @@ impl Prop for C10 {
         abandon.push(LOp::LongData { id: 7, param: 0, data: b"x".to_vec() });
         abandon.push(LOp::Execute { id: 7, vals: vec![3], err: None });
         abandon.push(LOp::Close { id: 1000 });
-        vec![Case { ops }, Case { ops: abandon }]
+        let mut v = vec![Case { ops }, Case { ops: abandon }];
+        if tier == Tier::Thorough {
+            // the same at a scale beyond any budget a server might keep per connection: more than
+            // 10^9 bytes of long data streamed and abandoned (the shim hands the open id out again),
+            // never more than 8 MB of it pending at a time; then an ordinary statement
+            let mut big = Vec::new();
+            for r in 0..130u32 {
+                big.push(LOp::Prepare { reply: Some((7, 1)) });
+                big.push(LOp::LongPat { id: 7, param: 0, seed: 1000 + r, len: 8_000_000 + r as usize });
+            }
+            big.push(LOp::Prepare { reply: Some((7, 1)) });
+            big.push(LOp::LongData { id: 7, param: 0, data: b"hello, ".to_vec() });
+            big.push(LOp::LongData { id: 7, param: 0, data: b"world".to_vec() });
+            big.push(LOp::Execute { id: 7, vals: vec![3], err: None });
+            big.push(LOp::Prepare { reply: Some((8, 2)) });
+            big.push(LOp::Execute { id: 8, vals: vec![1, 2], err: None });
+            v.push(Case { ops: big });
+        }
+        v
     }
     fn exec(&self, case: &Case) -> Exec {
         let mut ex = Exec::default();
